@@ -18,7 +18,7 @@ package control
 //   c10t : tnew | tupd <owner> <bmlen> <bits> <ans>* | trm <owner> | tnil upd|rm | tdump
 //   c10c : cnew <opt> <optTtl> <max> | put <key> <ttl> <fixedTtl|-> <bits> <ans>* | del <key> |
 //          fam <base> <observed order>* | look <key> <ignoreFixed> | jan <observed order>* | sleep <ns> |
-//          work | touch <key> | cdump
+//          work | touch <key> | hot <key> <packed> | cdump
 // Virtual time: every cache history runs inside a testing/synctest bubble.
 
 import (
@@ -671,6 +671,12 @@ func c10B(b bool) string {
 }
 
 func (w *c10Cache) summary() string {
+	// what the evictor goroutine would do with anything queued for the remove callback (nothing is ever
+	// queued while dnsControllerOption leaves CacheRemoveCallback unset)
+	for len(w.ctrl.evictorQ) > 0 {
+		w.ctrl.invokeCacheRemoveCallback(<-w.ctrl.evictorQ)
+	}
+	w.ctrl.drainEvictorSpill()
 	ok, n := w.mirror()
 	if !ok {
 		if w.stale {
@@ -865,6 +871,35 @@ func (h *c10Hist) touch(k c10Key) {
 	h.st.Emit("touch "+k.key(), h.w.summary())
 }
 
+// the lookup of the DNS hot path (handle -> LookupDnsRespCache_)
+func (h *c10Hist) hot(k c10Key) {
+	w := h.w
+	before := len(w.ctrl.bpfUpdateCh)
+	w.order = nil
+	var entry *DnsCache
+	if v, ok := w.ctrl.dnsCache.Load(k.key()); ok {
+		entry = v.(*DnsCache)
+	}
+	out := VRecover(func() string {
+		msg := new(dnsmessage.Msg)
+		msg.SetQuestion(k.name, k.qtype)
+		w.ctrl.LookupDnsRespCache_(msg, k.key(), false)
+		return w.summary()
+	})
+	packed := entry != nil && entry.GetPackedResponse() != nil
+	if len(w.ctrl.bpfUpdateCh) > before {
+		h.stats.Inc("c.refresh_queued")
+	}
+	if len(w.order) > 0 {
+		h.stats.Inc("c.expired_on_hot_lookup")
+	}
+	if entry != nil && !packed {
+		h.stats.Inc("c.hot_lookup_without_packed_response")
+	}
+	h.stats.Inc("c.op.hot")
+	h.st.Emit("hot "+k.key()+" "+c10B(packed), out)
+}
+
 func (h *c10Hist) dump() {
 	h.st.Emit("cdump", h.w.dump())
 	h.stats.Inc("c.op.dump")
@@ -896,7 +931,11 @@ func c10RunCacheHistory(st *VStream, r *VRand, obs *c10Observer, stats *VStats, 
 			h.put(keys[1], 300, g.bitmap(), g.answers())
 		}
 		h.sleep([]time.Duration{60 * time.Second, 61 * time.Second, 75 * time.Second}[r.Intn(3)])
-		h.look(k, false)
+		if r.Bool() {
+			h.look(k, false)
+		} else {
+			h.hot(k)
+		}
 		switch r.Intn(6) {
 		case 0:
 			h.put(k, 100, g.bitmap(), g.answers())
@@ -925,8 +964,10 @@ func c10RunCacheHistory(st *VStream, r *VRand, obs *c10Observer, stats *VStats, 
 			h.del(k)
 		case x < 52:
 			h.fam(k)
-		case x < 66:
+		case x < 58:
 			h.look(k, r.Chance(0.3))
+		case x < 66:
+			h.hot(k)
 		case x < 74:
 			h.jan()
 		case x < 88:
@@ -955,7 +996,7 @@ func c10RunCacheHistory(st *VStream, r *VRand, obs *c10Observer, stats *VStats, 
 				d = time.Nanosecond
 			}
 			h.sleep(d)
-		case x < 94:
+		case x < 93:
 			h.work()
 		case x < 97:
 			h.touch(k)
